@@ -6,7 +6,8 @@ wt=/tmp/wt/vtwin_$tid; dd=/tmp/demo_vtwin_$tid
 rm -rf "$dd"; mkdir -p "$dd/a" "$dd/b"
 git -C /repo worktree add -q --detach "$wt" HEAD || exit 2
 ( cd "$dd/a" && PYTHONHASHSEED=0 PYTHONPATH="$wt" timeout 900 /venv/bin/python "$src/demo.py" >"$dd/head.out" 2>"$dd/head.err" ); rc_head=$?
-if ! git -C "$wt" apply "$src/patch.diff"; then echo "$tid: PATCH DOES NOT APPLY"; git -C /repo worktree remove --force "$wt"; exit 3; fi
+if ! git -C "$wt" apply "$src/patch.diff" 2>/dev/null && ! (cd "$wt" && patch -p1 -s --fuzz=3 --no-backup-if-mismatch < "$src/patch.diff" && find . -name "*.orig" -delete); then echo "$tid: PATCH DOES NOT APPLY"; git -C /repo worktree remove --force "$wt"; exit 3; fi
+git -C "$wt" add -A >/dev/null 2>&1; git -C "$wt" diff --cached > "$dd/applied.diff"; git -C "$wt" reset -q
 ( cd "$dd/b" && PYTHONHASHSEED=0 PYTHONPATH="$wt" timeout 900 /venv/bin/python "$src/demo.py" >"$dd/twin.out" 2>"$dd/twin.err" ); rc_twin=$?
 same=no; cmp -s "$dd/head.out" "$dd/twin.out" && same=yes
 lines=$(wc -l < "$dd/head.out")
@@ -14,11 +15,11 @@ stable=$(cd "$wt" && /venv/bin/python -m pytest -q -p no:cacheprovider --timeout
 git -C /repo worktree remove --force "$wt"
 echo "$tid: demo_head_rc=$rc_head demo_twin_rc=$rc_twin transcript_lines=$lines identical=$same stable='$stable'"
 if [ $rc_head -eq 0 ] && [ $rc_twin -eq 0 ] && [ "$same" = yes ] && [ "$lines" -gt 20 ] && echo "$stable" | grep -q "538 passed"; then
-  out=/verif/selftest/twins_agents/T$tid; mkdir -p "$out"; cp "$src/patch.diff" "$out/"; cp "$src/notes.md" "$out/notes.md" 2>/dev/null; cp "$src/demo.py" "$out/demo.py"
-  cp "$src/patch.diff" /verif/selftest/twins/T$tid.diff
+  out=/verif/selftest/twins_agents/T$tid; mkdir -p "$out"; cp "$dd/applied.diff" "$out/patch.diff"; cp "$src/notes.md" "$out/notes.md" 2>/dev/null; cp "$src/demo.py" "$out/demo.py"
+  /verif/tools/filter_diff.py "$dd/applied.diff" /verif/selftest/twins/T$tid.diff
   echo "{\"twin\": \"T$tid\", \"source\": \"independent sub-agent given only the property text and a scratch worktree\", \"verified\": {\"by\": \"tools/verify_twin.sh\", \"transcript_lines\": $lines, \"identical_to_head\": true, \"stable_suite_with_patch\": \"$stable\"}}" > "$out/meta.json"
   echo "$tid: KEPT"
 else
   echo "$tid: REJECTED"
 fi
-rm -rf "$dd"
+[ -n "$KEEP_DD" ] || rm -rf "$dd"
